@@ -304,7 +304,13 @@ func snapsimPlan() plan {
 					return finish(1)
 				}
 			}
-			outs, bad := runTimed(c, phs["explore"])
+			// goroutines inside the snapping packages? (none in the pinned tree)
+			explorePh := phs["explore"]
+			if snapHasGoroutines(c.rc.info) {
+				explorePh.Extra = map[string]string{"concurrent": "1"}
+				c.extraCov["snapping_code_starts_goroutines"] = "yes: every input is also snapped under three seeded schedules (oracle 6)"
+			}
+			outs, bad := runTimed(c, explorePh)
 			agg.add(outs)
 			if bad {
 				return finish(1)
@@ -495,4 +501,20 @@ func uncontrolledSelects(info *buildInfo) []string {
 		}
 	}
 	return out
+}
+
+// snapHasGoroutines: does the instrumented tree start goroutines inside the snapping
+// packages (go statements or spawn-like calls found by simgen)?
+func snapHasGoroutines(info *buildInfo) bool {
+	l, _ := info.Inventory["go_start_sites"].([]interface{})
+	for _, e := range l {
+		if s, ok := e.(string); ok {
+			for _, p := range []string{"snap/", "pointindex/", "geomhelp/", "mapslicehelp/", "intgeom/", "morton/", "mathhelp/", "tms20/"} {
+				if strings.HasPrefix(s, p) {
+					return true
+				}
+			}
+		}
+	}
+	return false
 }
